@@ -196,6 +196,9 @@ def followOkP (dia : Dialect) (p : Presentation) (ctx : Str) : Bool :=
   | .bare => (match ctx with | [] => true | c :: _ => isWs c)
   | _ => followOk dia ctx
 
+/-- what may follow a data name, a block/frame header or `loop_`: whitespace or the end of input -/
+def wsOrEnd (ctx : Str) : Bool := match ctx with | [] => true | c :: _ => isWs c
+
 /-- where presentation `p` of `s` may start: a text field's semicolon begins a line, a whitespace-delimited value that
     begins with a semicolon does not -/
 def startOk (p : Presentation) (s : Str) (col : Nat) : Bool :=
